@@ -1,4 +1,110 @@
 import Model
+import Proofs.C06
+
+/-
+  C06 — rendering any fetched object at any terminal size neither crashes nor hangs.
+  In the model a Go function that can panic returns `Except Panic _`; every other modelled
+  function is total by construction (structural or well-founded recursion accepted by Lean).
+  These theorems cover every panic site on the rendering path.  Property theorems only.
+-/
+
 namespace C06
-theorem placeholder : True := trivial
+open Str Ansi
+
+/-- `strings.Repeat` panics exactly for a negative count — the site is real … -/
+theorem goRepeat_panics_iff (c : Char) (n : Int) :
+    (∃ e, Hypertext.goRepeat c n = .error e) ↔ n < 0 := by
+  unfold Hypertext.goRepeat
+  constructor
+  · rintro ⟨e, he⟩
+    split at he
+    · assumption
+    · cases he
+  · intro h
+    exact ⟨_, by rw [if_pos h]⟩
+
+/-- … and `<hr>` never reaches it, at any effective width (negative widths arise from deep
+    nesting and narrow terminals). -/
+theorem hr_no_panic (w : Int) : ∃ t, Hypertext.hrText w = .ok t := by
+  unfold Hypertext.hrText Hypertext.goRepeat
+  by_cases h : w < 0
+  · exact ⟨_, by rw [if_pos h]⟩
+  · exact ⟨_, by rw [if_neg h, if_neg h]; rfl⟩
+
+/-- Link selection is total on every integer; below 1 it returns nothing (no index is formed). -/
+theorem select_below_one {α : Type} (body : List Str) (atts : List α) (k : Int) (h : k < 1) :
+    Select.post body atts k = .none ∧ Select.actor body k = .none := by
+  have h' : k - 1 < 0 := by omega
+  constructor
+  · simp only [Select.post, h', ↓reduceIte]
+  · simp only [Select.actor, h', ↓reduceIte]
+
+/-- `SetLength` (status line) succeeds for every text and every width ≥ 0. -/
+theorem setLength_no_panic (s : Str) (w : Int) (e : Str) (hw : 0 ≤ w) : ∃ out, setLength s w e = .ok out := by
+  unfold setLength
+  simp only []
+  split
+  · exact ⟨_, rfl⟩
+  · split
+    · split
+      · omega
+      · exact ⟨_, rfl⟩
+    · split <;> exact ⟨_, rfl⟩
+
+/-- … and a negative width is exactly where its slice expression panics. -/
+theorem setLength_panics_iff (s : Str) (w : Int) (e : Str) :
+    (∃ p, setLength s w e = .error p) ↔ w < 0 := by
+  constructor
+  · rintro ⟨p, hp⟩
+    by_cases hw : w < 0
+    · exact hw
+    · obtain ⟨out, ho⟩ := setLength_no_panic s w e (by omega)
+      rw [ho] at hp
+      cases hp
+  · intro hw
+    refine ⟨.indexOutOfRange, ?_⟩
+    unfold setLength
+    simp only []
+    have h1 : ¬ w = 0 := by omega
+    have h2 : ((squash (scrub s)).length : Int) > w := by omega
+    have h3 : w - 1 < 0 := by omega
+    rw [if_neg h1, if_pos h2, if_pos h3]
+
+/-- `Snip` (previews use height 4) succeeds for every text, width and height ≥ 0. -/
+theorem snip_no_panic (s : Str) (w h : Int) (e : Str) (hh : 0 ≤ h) : ∃ out, snip s w h e = .ok out := by
+  unfold snip
+  have h' : ¬ h < 0 := by omega
+  rw [if_neg h']
+  exact ⟨_, rfl⟩
+
+/-- `ReplaceLastLine` succeeds whenever the replacement is newline-free (it is: `SetLength`
+    squashes newlines, C16). -/
+theorem replaceLastLine_no_panic (s r : Str) (hr : '\n' ∉ r) : ∃ out, replaceLastLine s r = .ok out := by
+  unfold replaceLastLine
+  have h' : ¬ (r.contains '\n' = true) := by simpa using hr
+  rw [if_neg h']
+  exact ⟨_, rfl⟩
+
+/-- The media hook's only index expression needs a non-empty hook (`Config.Safe`, C19). -/
+theorem hook_no_panic (p : Config.Parsed) (hs : Config.Safe p) (link : Str) (mt : Mime.MediaType) :
+    ∃ c, Hook.build p.hook link mt = .ok c := by
+  have hne : p.hook ≠ [] := hs.1
+  cases hh : p.hook with
+  | nil => exact absurd hh hne
+  | cons prog args => exact ⟨_, rfl⟩
+
+/-- History: `Current()` after any operation sequence containing an `Add` does not panic, and
+    `Add` itself never does. -/
+theorem history_no_panic {α : Type} (ops : List (History.Op α)) :
+    ∃ h, History.run {} ops = .ok h := by
+  obtain ⟨h, hr, _⟩ := C18.run_ok ops ({} : History.H α) C18.inv_empty
+  exact ⟨h, hr⟩
+
+/-- Output size of the ansi layer is linear: wrapping never adds characters beyond one newline
+    per match, so it cannot blow up by itself (the cost of deep nesting is in the repeated
+    restyling, see the known finding). -/
+theorem wrap_lines_total (cells : List RawCell) (w : Int) :
+    ((wrapLines cells w).map List.length).sum ≤ cells.length := by
+  exact C06P.wrap_lines_total cells w
+
 end C06
